@@ -212,14 +212,24 @@ def u_load_patches(ctx, centers):
         cen = AC.__new__(AC)
         cen.data = SArr.fresh(ctx, "centers", (n, 2), "f")
     from pyvc.arrays import SList
+    from pyvc.fsmodel_sym import SymFS
+    fs = SymFS(ctx)
+    ctx.ghost["fs"] = fs
+    fs.put_file("/cache/patch_ids.bin", [("arr", ids)])
     name = "C05/load_patches"
     with Patches() as pt:
         pt.set(C, "parallel", Par)
         pt.set(C, "Patch", PatchTok)
         pt.set(C, "read_patch_ids", lambda d: SList(ids))
         ctx.canary()
-        res = expect_no_exception(ctx, call(C.load_patches, C.Path("/cache"), patch_centers=cen, progress=False,
-                                            max_workers=ctx.fresh_int("max_workers", lo=1)), name)
+        res = call(C.load_patches, C.Path("/cache"), patch_centers=cen, progress=False, max_workers=ctx.fresh_int("max_workers", lo=1))
+        if centers and isinstance(res, Raised) and isinstance(res.exc, ValueError):
+            # a centre without objects (ids are not 0..n-1) is rejected: the positional pairing would be wrong (C09/C12)
+            ctx.check(f"{name}/post_exc[ValueError]:only_if_ids_are_not_0..n-1",
+                      Not(ForAll("t", lambda t: Implies(And(t >= 0, t < n), ids.at(t) == t))))
+            ctx.check(f"{name}/post_exc:rejected_cache_is_invalidated", not fs.exists("/cache/patch_ids.bin"))
+            return
+        res = expect_no_exception(ctx, res, name)
     perm = state["perm"]
     ctx.check(f"{name}/post:one_task_per_stored_id", vc_len(perm) == n)
     ctx.check(f"{name}/post:patches_built_by_Patch_with_unpacked_arguments", state["func"] is PatchTok and state["unpack"] is True)
